@@ -525,6 +525,98 @@ def galilean(chk, rule, sol, name, inline=(), opaque=None):
     return n
 
 
+VOPAQUE = {"sample_right_vacuum": {"outs": ["vs_rho", "vs_v", "vs_P"], "ret": "vs_flag"},
+           "sample_left_vacuum": {"outs": ["vs_rho", "vs_v", "vs_P"], "ret": "vs_flag"},
+           "sample_vacuum_generation": {"outs": ["vs_rho", "vs_v", "vs_P"], "ret": "vs_flag"}}
+
+
+def _assembly_leaves(sol, name, opaque, sig, flag_name):
+    """Leaves of a flux-assembly function with the sampled state as plain symbols, keyed by side flag value."""
+    fn, res, se = flux_leaves(sol, name, (), opaque, sig)
+    out = {}
+    flag = sym_for(flag_name) if False else S(flag_name, real=True)
+    for l, o in res:
+        vals = set()
+        for fv in (-1, 0, 1):
+            okv = True
+            for c, pol, _ in l.conds:
+                if flag not in getattr(c, "free_symbols", set()):
+                    continue
+                c2 = c.xreplace({flag: sp.Integer(fv)})
+                if c2 in (sp.true, sp.false) and bool(c2) != pol:
+                    okv = False
+            if okv:
+                vals.add(fv)
+        out.setdefault(frozenset(vals), []).append((l, o))
+    return fn, out, se
+
+
+def vacuum_assembly_equals_exact(chk, sole, solh, VSIG):
+    """S4: given the same sampled state and side flag, HLLC solve_vacuum_flux assembles exactly the flux that
+    the exact solver's solve_for_flux assembles (de-projection, energy, de-boost)."""
+    fe, le, see = _assembly_leaves(sole, "solve_for_flux",
+                                   {"solve": {"outs": ["vs_rho", "vs_v", "vs_P"], "ret": "vs_flag"}}, None, "vs_flag")
+    fh, lh, seh = _assembly_leaves(solh, "solve_vacuum_flux", VOPAQUE, VSIG, "vs_flag")
+    # in solve_vacuum_flux the projected velocities and face-frame velocities are parameters: substitute
+    # their definitions from the caller (uLface = uL - vface, vL = uLface . normal)
+    uL, uR, nrm, w = (AVec.basis(x) for x in ("uL", "uR", "normal", "vface"))
+    vm = {"uLface": uL - w, "uRface": uR - w}
+    sm = {S("vL", real=True): (uL - w).dot(nrm), S("vR", real=True): (uR - w).dot(nrm)}
+    n = 0
+    for key, lst in sorted(lh.items(), key=lambda kv: sorted(kv[0])):
+        if key not in le:
+            chk.fail("S4", "solve_vacuum_flux regime flag in %s" % sorted(key), where(fh),
+                     "the exact solver has no flux-assembly regime for these side-flag values", function=fh["full"],
+                     construct="assembly regime %s" % sorted(key))
+            n += 1
+            continue
+        (le_l, oe) = le[key][0]
+        for l, oh in lst:
+            inst = "solve_vacuum_flux [%s] assembles the exact solver's flux" % show_conds(l)[:100]
+            loc = where(l.conds[-1][2], fh) if l.conds else where(fh)
+            diffs = [("mass", apply_vm(oh["m"], vm, sm) - oe["m"])] + \
+                    [("momentum (%s)" % bn, x) for bn, x in zip(("uL", "uR", "normal", "vface", "uLface", "uRface"),
+                                                              flat(apply_vm(oh["p"], vm, sm) - oe["p"]))] + \
+                    [("energy", apply_vm(oh["E"], vm, sm) - oe["E"])]
+            for nm, d in diffs:
+                z, r = rat_is_zero(d)
+                n += 1
+                chk.require(z, "S4", "%s: %s" % (inst, nm), loc,
+                            "with the same sampled state the HLLC vacuum path and the exact solver assemble different "
+                            "%s fluxes: difference %s" % (nm, str(r)[:200]), function=fh["full"],
+                            construct="vacuum assembly %s" % nm.split()[0])
+    chk.floor("S4-assembly", n, 15)
+    return n
+
+
+def galilean_vacuum(chk, solh, VSIG):
+    """S9 for the HLLC vacuum path: the sampled state depends only on frame-invariant inputs (projected
+    face-frame velocities), so flux(u, vface) must equal Boost[flux(u - vface, 0)]."""
+    fn, res, se = flux_leaves(solh, "solve_vacuum_flux", (), VOPAQUE, VSIG)
+    uL, uR, nrm, w = (AVec.basis(x) for x in ("uL", "uR", "normal", "vface"))
+    # caller's definitions of the derived parameters
+    vm0 = {"uLface": uL - w, "uRface": uR - w}
+    sm0 = {S("vL", real=True): (uL - w).dot(nrm), S("vR", real=True): (uR - w).dot(nrm)}
+    shift = {"uL": uL - w, "uR": uR - w, "vface": AVec()}
+    n = 0
+    for l, o in res:
+        inst = "solve_vacuum_flux [%s]" % show_conds(l)[-100:]
+        loc = where(l.conds[-1][2], fn) if l.conds else where(fn)
+        full = {k: apply_vm(v, vm0, sm0) for k, v in o.items()}
+        m0, p0, E0 = (apply_vm(full[k], shift) for k in ("m", "p", "E"))
+        ref = (m0, p0 + w * m0, E0 + w.dot(p0) + sp.Rational(1, 2) * w.dot(w) * m0)
+        for nm, d in [("mass", full["m"] - ref[0])] + \
+                [("momentum (%s)" % bn, x) for bn, x in zip(("uL", "uR", "normal", "vface", "x1", "x2"),
+                                                          flat(full["p"] - ref[1]))] + \
+                [("energy", full["E"] - ref[2])]:
+            z, r = rat_is_zero(d)
+            n += 1
+            chk.require(z, "S9", "%s: %s flux transforms as a Galilean boost" % (inst, nm), loc,
+                        "flux(u, vface) - Boost[flux(u - vface, 0)] = %s" % str(r)[:240], function=fn["full"],
+                        construct="solve_vacuum_flux Galilean %s" % nm.split()[0])
+    return n
+
+
 def run(chk, prog):
     chk.explanation = (
         "Both Riemann solvers are written as explicit left/right twins; their loop-free code is extracted into "
@@ -592,6 +684,8 @@ def run(chk, prog):
                             function=fh["full"], construct="HLLC %s %s" % (name, k))
     chk.floor("S4", n4, 30)
     # flux-level rules
+    VSIG = ["rhoL", "uL", "PL", "uLface", "vL", "aL", "vacuumL", "rhoR", "uR", "PR", "uRface", "vR", "aR",
+            "vacuumR", OUT_, OUT_, OUT_, "normal", "vface"]
     nf = 0
     nf += flux_self_mirror(chk, "S2", solh, "solve_for_flux", (),
                            {"solve_vacuum_flux": {"outs": ["mvac", "pvac", "Evac"], "ret": "none"}})
@@ -622,8 +716,8 @@ def run(chk, prog):
                   {"solve_vacuum_flux": {"outs": ["mvac", "pvac", "Evac"], "ret": "none"}})
     ng += galilean(chk, "S9", sole, "solve_for_flux", (),
                    {"solve": {"outs": ["sol_rho", "sol_v", "sol_P"], "ret": "sol_flag", "functions": True}})
-    ng += galilean(chk, "S9", solh, "solve_vacuum_flux",
-                   ("sample_right_vacuum", "sample_left_vacuum", "sample_vacuum_generation")) if False else 0
+    ng += galilean_vacuum(chk, solh, VSIG)
+    ng += vacuum_assembly_equals_exact(chk, sole, solh, VSIG)
     chk.floor("S9", ng, 60)
 
 
